@@ -1,5 +1,6 @@
 ---------------------------- MODULE MCCorrelate ----------------------------
 EXTENDS Correlate
+Kind1 == [i \in {"i1"} |-> KindAll[i]]
 Kind2 == [i \in {"i1", "m1"} |-> KindAll[i]]
 Kind2b == [i \in {"i1", "i2"} |-> KindAll[i]]
 Kind3 == [i \in {"i1", "i2", "p1"} |-> KindAll[i]]
